@@ -7,6 +7,7 @@ import (
 	"fmt"
 	"os"
 	"path/filepath"
+	"strings"
 	"testing"
 
 	"verif/harness/ev"
@@ -91,7 +92,12 @@ func Known(t *testing.T, property string, handlers map[string]Handler) {
 			continue
 		}
 		rerr := h(raw)
+		for try := 0; try < 2 && rerr != nil && strings.HasPrefix(rerr.Error(), "SETUP"); try++ {
+			rerr = h(raw) // the environment (ports, processes) failed, not the code under test
+		}
 		switch {
+		case rerr != nil && strings.HasPrefix(rerr.Error(), "SETUP"):
+			fmt.Printf("NOTE: replay of finding %s inconclusive: %v\n", f.ID, rerr)
 		case f.Status == "open" && rerr != nil:
 			kf.Announce(f)
 			ev.Known(f.ID)
